@@ -51,12 +51,19 @@ func ParseSlots(ann map[string]string) map[int32]bool {
 	if !ok {
 		return out
 	}
-	var l []int32
+	// a list of int32 and nothing else: a null element names no ordinal (it is not ordinal 0), so a value that
+	// contains one is as unusable as one that does not parse
+	var l []*int32
 	if err := json.Unmarshal([]byte(v), &l); err != nil {
 		return out
 	}
 	for _, x := range l {
-		out[x] = true
+		if x == nil {
+			return map[int32]bool{}
+		}
+	}
+	for _, x := range l {
+		out[*x] = true
 	}
 	return out
 }
